@@ -190,6 +190,8 @@ func (w *World) statsPrefix() ([]Op, map[string]TransferSpec) {
 	addT(TransferSpec{"channel-0", denomBIG, "18446744073709551617", orb, w.FwdInternal(w.Carol), []FeeSpec{{To: w.Fee1.String(), Bps: 1}}})
 	addT(TransferSpec{"channel-0", denomBIG, "7", orb, w.FwdInternal(w.Carol), nil})
 	addT(TransferSpec{"channel-1", denomUSDC, "500", orb, w.FwdInternal(w.Bob), nil}) // overflows the accumulator after Env(seed-stats-top)
+	// ... and one whose INCOMING total overflows there while the outgoing total still fits (amount 15, fee 10: +15 / +5 on totals 10 below the top)
+	addT(TransferSpec{"channel-1", denomUSDC, "15", orb, w.FwdInternal(w.Bob), []FeeSpec{{To: w.Fee1.String(), Fixed: "10"}}})
 	// refused transfers
 	addT(TransferSpec{"channel-0", denomUSDC, "2000000", orb, w.FwdCCTP(0), nil}) // over the CCTP burn limit
 	addT(TransferSpec{"channel-0", denomUSDC, "100", orb, w.FwdHyp(3), nil})      // no enrolled router
@@ -284,6 +286,44 @@ func checkC12(tier string) *Report {
 		if strings.Join(got, "\n") != strings.Join(want, "\n") {
 			rep.Violate(Violation{Kind: "export-differs-from-fold", Group: op.Label, Sig: sig, Replay: replay(),
 				What: fmt.Sprintf("after %s exported statistics differ from the fold of successful transfers:\n got  %v\n want %v", sig, got, want)})
+		}
+		// keys whose true sum cannot be represented: what is stored is open, but within bounds — a total never goes
+		// backwards and never exceeds the true sum (sums of non-negative amounts are monotone), a count likewise
+		if len(m2.Undefined) > 0 {
+			read := func(c sdk.Context) (map[string][2]*big.Int, map[string]uint64) {
+				_, g := w.exportedStats(c, nil)
+				am, cn := map[string][2]*big.Int{}, map[string]uint64{}
+				for _, a := range g.DispatchedAmounts {
+					k := fmt.Sprintf("%d:%s|%d:%s|%s", int32(a.SourceId.ProtocolId), a.SourceId.CounterpartyId, int32(a.DestinationId.ProtocolId), a.DestinationId.CounterpartyId, a.Denom)
+					am[k] = [2]*big.Int{a.AmountDispatched.Incoming.BigInt(), a.AmountDispatched.Outgoing.BigInt()}
+				}
+				for _, c := range g.DispatchedCounts {
+					cn[fmt.Sprintf("%d:%s|%d:%s", int32(c.SourceId.ProtocolId), c.SourceId.CounterpartyId, int32(c.DestinationId.ProtocolId), c.DestinationId.CounterpartyId)] = c.Count
+				}
+				return am, cn
+			}
+			pa, pc := read(pre)
+			qa, qc := read(post)
+			zero := [2]*big.Int{new(big.Int), new(big.Int)}
+			for k := range m2.Undefined {
+				if strings.Count(k, "|") == 2 {
+					p, q := pa[k], qa[k]
+					if p[0] == nil {
+						p = zero
+					}
+					if q[0] == nil {
+						q = zero
+					}
+					t := m2.Amt[k]
+					if q[0].Cmp(p[0]) < 0 || q[1].Cmp(p[1]) < 0 || q[0].Cmp(t.In) > 0 || q[1].Cmp(t.Out) > 0 {
+						rep.Violate(Violation{Kind: "unrepresentable-total-out-of-bounds", Group: op.Label, Sig: sig + "|" + k, Replay: replay(),
+							What: fmt.Sprintf("entry %s: stored totals went from in=%s out=%s to in=%s out=%s; the true sums are in=%s out=%s (a total may stop growing when the sum cannot be represented, it may not go backwards or exceed the sum) after %s", k, p[0], p[1], q[0], q[1], t.In, t.Out, sig)})
+					}
+				} else if qc[k] < pc[k] || qc[k] > m2.Cnt[k] {
+					rep.Violate(Violation{Kind: "unrepresentable-total-out-of-bounds", Group: op.Label, Sig: sig + "|" + k, Replay: replay(),
+						What: fmt.Sprintf("route %s: stored count went from %d to %d; %d transfers succeeded after %s", k, pc[k], qc[k], m2.Cnt[k], sig)})
+				}
+			}
 		}
 		rep.Count("traces_validated_against_impl", 1)
 		// direct lookups for every model key
